@@ -828,7 +828,7 @@ fn fin(env: Option<&Env>) -> Finish {
         assumptions.push(format!("{} discovered routes, {} in scope and not exempt", e.all_templates.len(), e.scope_routes.len()));
     }
     Finish {
-        level: "E3 real node + E1 route discovery",
+        level: "exploration",
         rule: "HTTP: discovered in-scope routes x 6 methods x {none + 5 carriers x 6 token values} in canonical spelling (complete matrix) + random spellings (1-3 of: trailing/double slash, case, percent-escape, ;param, /./, /zz/.., static-file suffix) with random carrier/value/decoy; gRPC: every request type constant + random type strings x session header {none, empty, garbage, never issued, expired, valid} x header key x cluster token {none, empty, prefix, wrong, right} x bi-stream {yes,no}. Non-trivial = the request line reaches a handler when sent with a valid token (HTTP) / the type is served when authorised (gRPC).".to_string(),
         assumptions,
         exhaustive: None,
